@@ -566,12 +566,17 @@ Definition step (s : st) (o : op) : st :=
   | LibMsg c m =>
       match m with
       | LRequest b =>
-          if match get_row c (rows s), find_blk b (blocks s) with
-             | Some r, Some bk => has_req b (reqs r) && has_st c TQ bk
-             | _, _ => false end then s else
-          let (bl, ok) := add_tr c b (blocks s) in
-          let s1 := with_conn c (lib_msg_row m) (set_blocks bl s) in
-          if ok then s1 else reject s1
+          match get_row c (rows s) with
+          | None => reject s
+          | Some r =>
+              if negb (is_conn r) then reject s else    (* only an established connection requests blocks *)
+              if match find_blk b (blocks s) with
+                 | Some bk => has_req b (reqs r) && has_st c TQ bk
+                 | None => false end then s else
+              let (bl, ok) := add_tr c b (blocks s) in
+              let s1 := with_conn c (lib_msg_row m) (set_blocks bl s) in
+              if ok then s1 else reject s1
+          end
       | _ => with_conn c (lib_msg_row m) s
       end
   | PexEnable c =>
